@@ -526,6 +526,63 @@ class Real:
         except KeyError:
             return z64
 
+    def do_raw(self, op, ev):
+        """storage level only: a transaction of deleteObject records ('d') or restore records ('rs':
+        a copy of the revision of an earlier transaction with prev_txn -> back pointer, fresh data, or
+        data=None -> the object is gone).  Inputs of the history, not under test."""
+        kind, label, spec = op
+        fs = self.fs
+        tid = self.next_tid()
+        t = TransactionMetaData('', desc_for(label, len(self.ops)), {})
+        fs.tpc_begin(t, tid)
+        passed = {}
+        n = 0
+        for name in sorted(spec):
+            oid = p64(ST_OIDS[name])
+            serial = self.cur_serial(oid)
+            if kind == 'd':
+                if serial == z64:
+                    continue
+                fs.deleteObject(oid, serial, t)
+                passed[oid.hex()] = None
+            else:
+                what = spec[name]
+                if what[0] == 'copy':
+                    src = self.labels.get(what[1])
+                    if src is None or src not in self.tids:
+                        continue
+                    try:
+                        data = fs.loadSerial(oid, src)
+                    except POSException.POSKeyError:
+                        continue
+                    fs.restore(oid, tid, data, '', src, t)
+                elif what[0] == 'gone':
+                    if serial == z64:
+                        continue
+                    data = None
+                    fs.restore(oid, tid, None, '', None, t)
+                else:
+                    data = mk_pickle(cls_of(name), state_of(name, what[1]))
+                    fs.restore(oid, tid, data, '', None, t)
+                passed[oid.hex()] = self.toks.of(data)
+            n += 1
+        fs.tpc_vote(t)
+        fs.tpc_finish(t)
+        self.labels[label] = tid
+        log = self.note_file()
+        ev['kind'] = 'w'
+        ev['tid'] = tid.hex()
+        if log[-1][0] != tid.hex():
+            raise InfraError('unexpected shape of a raw commit: %r' % (log[-1],))
+        ev['recs'] = [(r[0], passed[r[0]]) for r in log[-1][2]]
+        self.emit('begin %s' % tid.hex(), 'ok', 'I', 'tpc_begin')
+        for oid, _, prev, k, v in log[-1][2]:
+            if k == 'd':
+                self.emit('store %s %s' % (oid, v), 'ok', 'I', 'restore (data)')
+            else:
+                self.emit('rec %s b %d' % (oid, v), 'ok', 'I', 'deleteObject / restore (pointer)')
+        self.emit('finish', 'ok', 'I', 'tpc_finish')
+
     def do_w(self, op, ev):
         _, label, sets = op
         fs = self.fs
@@ -582,14 +639,31 @@ class Real:
         del self.undo_calls[:]
         del c06_classes.CALLS[:]
         ids64 = [base64.encodebytes(t).rstrip(b'\n') for t in tids]
+        # the ids as the application gets them: from undoLog / undoInfo (alternating); a transaction the
+        # log no longer offers (packed, or behind a packed one) is asked for with its remembered, stale id
+        try:
+            offered = (self.top.undoInfo if len(self.events) % 2 else self.top.undoLog)(0, 100000) \
+                if self.mode == 'db' else fs.undoLog(0, 100000)
+            ev['undo_log'] = [base64.decodebytes(d['id'] + b'\n').hex() for d in offered]
+            by_tid = {base64.decodebytes(d['id'] + b'\n'): d['id'] for d in offered}
+            ids64 = [by_tid.get(t, i) for t, i in zip(tids, ids64)]
+        except Exception as e:
+            ev['undo_log'] = 'Other:' + type(e).__name__
         res = 'ok'
         if self.mode == 'st':
             utid = self.next_tid()
             t = TransactionMetaData('', desc_for(label, len(self.ops)), {})
             fs.tpc_begin(t, utid)
             try:
-                for i in ids64:
-                    fs.undo(i, t)
+                try:
+                    for i in ids64:
+                        fs.undo(i, t)
+                finally:
+                    ev['resolver_calls'] = list(c06_classes.CALLS)
+                # staged only: every load still answers as before, whoever runs now
+                ev['mid_state'] = {oid.hex(): self.load(oid) for oid in self.oids}
+                if self.between is not None:
+                    self.between()
                 fs.tpc_vote(t)
                 fs.tpc_finish(t)
             except POSException.UndoError:
@@ -600,8 +674,9 @@ class Real:
                 fs.tpc_abort(t)
         else:
             ev['pre_view'] = self.storage_view()
-            self.b_prepare(len(self.events) % 2)
-            self.peek, self.peek_armed = None, True
+            self.peek_parity = len(self.events) % 2
+            self.b_prepare(self.peek_parity)
+            self.peek, self.vote_peek, self.peek_armed = None, None, True
             tm = self.tm1 if via == 'conn' else self.tmu
             tm.begin()
             tm.get().note(DESC.decode())
@@ -620,11 +695,12 @@ class Real:
             utid = fs.lastTransaction() if res == 'ok' else None
             self.peek_armed = False
             ev['b_peek'] = self.peek                  # B's reads in the window (None: nothing was finished)
+            ev['b_vote_peek'] = self.vote_peek        # B's reads after the vote, before the finish
             ev['b_next'] = self.b_view()              # B after its next boundary
             ev['post_view'] = self.storage_view()
         ev['res'] = res
         ev['calls'] = list(self.undo_calls)
-        ev['resolver_calls'] = list(c06_classes.CALLS)
+        ev.setdefault('resolver_calls', list(c06_classes.CALLS))
         with open(self.path, 'rb') as f:
             after_bytes = f.read()
         ev['same_bytes'] = after_bytes == before_bytes
@@ -651,8 +727,11 @@ class Real:
             return
         t = pack_time(self.labels[at], self.mode)
         try:
+            self.old_index = None
             if self.mode == 'st':
                 self.fs.pack(t, lambda data, oids=None: [], gc=False)
+            elif self.opts.get('build') == 'config' and self.storage_kind != 'demo':
+                self.top.pack(t, ZODB.serialize.referencesf)      # gc as configured (pack-gc true|false)
             else:
                 if self.storage_kind == 'demo':     # no garbage collection over a base storage
                     self.top.pack(t, ZODB.serialize.referencesf, gc=False)
@@ -681,54 +760,83 @@ class Real:
                   'the file read back satisfies the invariant the theorems assume')
 
     def do_reopen(self, op, ev):
-        noindex = len(op) > 1 and op[1]
+        how = op[1] if len(op) > 1 else False       # False: saved index, True: by scan, 'stale': an older index
         self.close()
-        if noindex and os.path.exists(self.path + '.index'):
-            os.remove(self.path + '.index')
+        idx = self.path + '.index'
+        now = None
+        if os.path.exists(idx):
+            with open(idx, 'rb') as f:
+                now = f.read()
+        if how == 'stale' and self.old_index is not None:
+            with open(idx, 'wb') as f:
+                f.write(self.old_index)
+        elif how and os.path.exists(idx):
+            os.remove(idx)
+        self.old_index = now
         self.open()
         ev['res'] = 'ok'
         self.send_log(ev)
 
+    def clock_ctx(self):
+        """DB-level tids come from the clock: normal, stalled (every call the same time) or regressing"""
+        if self.mode != 'db':
+            return None
+        return clock.scripted(step={'stall': 0.0, 'back': -1.5}.get(self.opts.get('clock'), 1.0))
+
+    def start(self):
+        self.open()
+        if self.mode == 'db':       # the root object's creating transaction
+            log = self.note_file()
+            ev = dict(op=['init'], kind='w', res='ok', tid=log[-1][0],
+                      recs=[(r[0], r[4]) for r in log[-1][2]])
+            self.emit('begin %s' % ev['tid'], 'ok', 'I', 'tpc_begin')
+            for o, tk in ev['recs']:
+                self.emit('store %s %s' % (o, tk), 'ok', 'I', 'store')
+            self.emit('finish', 'ok', 'I', 'tpc_finish')
+            self.observe(ev, full=False)
+            self.events.append(ev)
+
+    def step(self, op):
+        if op[0] == 'u' and (not self.events or 'lb' not in self.events[-1]) \
+                and any(i in self.labels for i in op[2]):
+            ev = dict(op=['obs'], kind='obs', res='ok')      # full picture before the undo
+            self.observe(ev, full=True)
+            self.events.append(ev)
+        ev = dict(op=op, kind=op[0], res='ok')
+        self.events.append(ev)
+        if op[0] == 'w':
+            self.do_w(op, ev)
+        elif op[0] in ('d', 'rs'):
+            if self.mode == 'st':
+                self.do_raw(op, ev)
+            else:
+                ev['kind'] = 'skip'
+        elif op[0] == 'u':
+            self.do_u(op, ev)
+        elif op[0] == 'pack':
+            self.do_pack(op, ev)
+        elif op[0] == 'reopen':
+            self.do_reopen(op, ev)
+        else:
+            raise InfraError('unknown op %r' % (op,))
+        if ev['kind'] != 'skip':
+            self.observe(ev, full=ev['kind'] != 'w')
+
+    def end(self):
+        ev = dict(op=['end'], kind='end', res='ok')
+        self.observe(ev, full=True)
+        self.events.append(ev)
+        self.close()
+
     def run(self):
-        ctx = clock.scripted() if self.mode == 'db' else None
+        ctx = self.clock_ctx()
         if ctx is not None:
             ctx.__enter__()
         try:
-            self.open()
-            if self.mode == 'db':       # the root object's creating transaction
-                log = self.note_file()
-                ev = dict(op=['init'], kind='w', res='ok', tid=log[-1][0],
-                          recs=[(r[0], r[4]) for r in log[-1][2]])
-                self.emit('begin %s' % ev['tid'], 'ok', 'I', 'tpc_begin')
-                for o, tk in ev['recs']:
-                    self.emit('store %s %s' % (o, tk), 'ok', 'I', 'store')
-                self.emit('finish', 'ok', 'I', 'tpc_finish')
-                self.observe(ev, full=False)
-                self.events.append(ev)
+            self.start()
             for op in self.ops:
-                if op[0] == 'u' and (not self.events or 'lb' not in self.events[-1]) \
-                        and any(i in self.labels for i in op[2]):
-                    ev = dict(op=['obs'], kind='obs', res='ok')      # full picture before the undo
-                    self.observe(ev, full=True)
-                    self.events.append(ev)
-                ev = dict(op=op, kind=op[0], res='ok')
-                if op[0] == 'w':
-                    self.do_w(op, ev)
-                elif op[0] == 'u':
-                    self.do_u(op, ev)
-                elif op[0] == 'pack':
-                    self.do_pack(op, ev)
-                elif op[0] == 'reopen':
-                    self.do_reopen(op, ev)
-                else:
-                    raise InfraError('unknown op %r' % (op,))
-                if ev['kind'] != 'skip':
-                    self.observe(ev, full=op[0] != 'w')
-                self.events.append(ev)
-            ev = dict(op=['end'], kind='end', res='ok')
-            self.observe(ev, full=True)
-            self.events.append(ev)
-            self.close()
+                self.step(op)
+            self.end()
         finally:
             if ctx is not None:
                 ctx.__exit__(None, None, None)
